@@ -7,7 +7,7 @@ props = {json.loads(l)["id"]: json.loads(l) for l in open(os.path.join(ROOT, "pr
 # id -> (technique, level text, level note, design ref)
 CLAIMS = {}
 TRANSLATED = {"C05": "G3: p-value tables of two_sample_core, one_sample, corr, sim_corr, stratified_permutationtest, stratified_two_sample",
-              "C14": "G3: alternative chains of hypergeometric and binomial_p",
+              "C14": "G3: alternative chains of hypergeometric and binomial_p; G5: their argument guards",
               "C01": "G4: k_sample p-value formulas", "C02": "G4: bivariate_k_sample p-value formulas",
               "C07": "G4: npc row p-values, final count, sim_npc partial p-values", "C10": "G4: westfall_young raw / permutation / adjusted p-value assignments",
               "C11": "G4: adjust_p base expressions", "C12": "G4: two-sided level split", "C13": "G4: two-sided level split",
